@@ -64,15 +64,15 @@ def tlc_prop_stage(specs, scratch, timeout):
     return st
 
 
-def replay_stage(gens, driver, opts, scratch, timeout, nproc=core.NCPU):
+def replay_stage(gens, driver, opts, scratch, timeout, nproc=core.NCPU, name="replay", chunk=200):
     """gens: list of dict(module, cfg, simulate=None|num, depth, seed, workers, opts?)."""
-    st = Stage("replay")
+    st = Stage(name)
     info = {"generators": []}
     allstats = []
     for g in gens:
         o = dict(opts)
         o.update(g.get("opts", {}))
-        rp = core.Replayer(driver, o, nproc=nproc)
+        rp = core.Replayer(driver, o, nproc=nproc, chunk=chunk)
         r = core.run_tlc(g["module"], g["cfg"], scratch, workers=g.get("workers", 4),
                          simulate=g.get("simulate"), depth=g.get("depth"), seed=g.get("seed", 0),
                          timeout=g.get("timeout", timeout), on_line=rp.feed, extra_defs=g.get("extra_defs"))
@@ -121,16 +121,16 @@ def finish(prop, tier, seed, t0, stages, *, level="model_checking", rule, assump
     cov = {}
     for st in stages:
         cov[st.name] = st.info
-    tl = next((s.info for s in stages if s.name == "tlc_properties"), {"states": 0, "transitions": 0})
-    rp = next((s.info for s in stages if s.name == "replay"), {})
+    tls = [s.info for s in stages if s.name.startswith("tlc_properties")]
+    rps = [s.info for s in stages if s.name.startswith("replay")]
+    others = [s.info for s in stages if not s.name.startswith("replay") and not s.name.startswith("tlc_properties")]
     coverage = {
-        "states": tl.get("states", 0), "transitions": tl.get("transitions", 0),
-        "traces_validated_against_impl": rp.get("replayed", 0) + sum(
-            s.info.get("traces_validated", 0) for s in stages if s.name not in ("replay", "tlc_properties")),
-        "evaluations": rp.get("replayed", 0) + sum(s.info.get("evaluations", 0) for s in stages if s.name != "replay"),
-        "distinct_nontrivial": rp.get("nontrivial", 0) + sum(s.info.get("nontrivial", 0) for s in stages if s.name != "replay"),
+        "states": sum(t.get("states", 0) for t in tls), "transitions": sum(t.get("transitions", 0) for t in tls),
+        "traces_validated_against_impl": sum(r.get("replayed", 0) for r in rps) + sum(o.get("traces_validated", 0) for o in others),
+        "evaluations": sum(r.get("replayed", 0) for r in rps) + sum(o.get("evaluations", 0) for o in others),
+        "distinct_nontrivial": sum(r.get("nontrivial", 0) for r in rps) + sum(o.get("nontrivial", 0) for o in others),
         "rule": rule,
-        "samples": (rp.get("samples") or []) + [x for s in stages if s.name != "replay" for x in s.info.get("samples", [])][:3],
+        "samples": ([x for r in rps for x in (r.get("samples") or [])] + [x for o in others for x in o.get("samples", [])])[:4],
         "exhaustive": bool(exhaustive),
         "known_findings_hit": dict(kf.hits),
         "stages": cov,
